@@ -1,5 +1,5 @@
 (* C10 -- Shamir sharing reconstructs from any threshold subset and rejects bad sets.
-   Only statements here; proofs are in proofs/ShamirProofs.v.  The log/antilog tables are built inside the kernel by the
+   Only statements here; proofs are in proofs/ShamirProofs.v, proofs/GfPoly.v and proofs/ShamirReconstruct.v.  The log/antilog tables are built inside the kernel by the
    same loops as build_exp_table / build_log_table from the reduction polynomial in the source (regenerated). *)
 Require Import ZArith List.
 Import ListNotations.
